@@ -51,6 +51,8 @@ class Impl:
         from trashcli.parse_trashinfo.parse_deletion_date import parse_deletion_date
         from trashcli.parse_trashinfo.maybe_parse_deletion_date import maybe_parse_deletion_date
         from trashcli.fs import contents_of
+        from trashcli.parse_trashinfo.parse_original_location import parse_original_location
+        self.parse_original_location = parse_original_location
         self.format_trashinfo = format_trashinfo
         self.parse_path = parse_path
         self.ParseError = ParseError
@@ -83,6 +85,13 @@ class Impl:
     def path(self, text):
         try:
             return ("ok", os.fsencode(self.parse_path(text)))
+        except self.ParseError:
+            return ("parse-error", None)
+
+    def location(self, text, volume):
+        """what trash-restore makes of the Path line (its own entry point: the un-escaped value joined to the volume)"""
+        try:
+            return ("ok", os.fsencode(self.parse_original_location(text, os.fsdecode(volume))))
         except self.ParseError:
             return ("parse-error", None)
 
@@ -221,6 +230,13 @@ def eval_format(ck, impl, drv, kind, loc, dt):
     st, p = impl.path(text)
     if st != "ok" or p != loc:
         ck.violation("path-roundtrip", {"kind": "format"}, dict(case, content=hx(got), read_back=repr(p)))
+    # ... and every reader's own way to the location decodes the value exactly once
+    for vol in (b"/", b"/vol"):
+        st2, p2 = impl.location(text, vol)
+        want2 = loc if loc.startswith(b"/") else os.path.join(vol, loc)
+        if st2 != "ok" or p2 != want2:
+            ck.violation("path-roundtrip (trash-restore's parse_original_location)", {"kind": "format"},
+                         dict(case, content=hx(got), volume=repr(vol), read_back=repr(p2)))
     st, d = impl.date(text)
     if st != "date" or d != dt:
         ck.violation("date-roundtrip", {"kind": "format"}, dict(case, content=hx(got), read_back=repr(d)))
